@@ -112,7 +112,10 @@ func verifHarness_C20_syncSendMessage() {
 			vAssert(off == offsets, "success-offsets-increase-by-one")
 			vAssert(part.lastN == nparts, "partitioner-offered-the-configured-partition-count")
 			vAssert(msg.Partition == part.last, "message-carries-the-chosen-partition")
-			vAssert(p == part.last, "returned-partition-is-the-chosen-one")
+			// the return value is not asserted: mocks.SyncProducer answers partition 0 whatever
+			// the partitioner chose, and examples/http_server's test pins exactly that
+			// (DESIGN.md §0, "withdrawn"); msg.Partition carries the choice
+			_ = p
 			vAssert(rep.n == before, "nothing-reported-on-success")
 		default:
 			vAssert(err == vErrScripted, "scripted-error-returned")
